@@ -55,7 +55,7 @@ MANIFEST = dict(
 )
 FLOORS = {"C02.1": 1, "C02.2": 8, "C02.3": 5, "C02.4": 3, "C02.5": 5,
           "C02.6": 14, "C02.7": 30, "C02.8": 20,
-          "C02.9": 12, "C02.10": 4}
+          "C02.9": 12, "C02.10": 4, "C02.11": 30}
 
 RPE = "evo.core.metrics.RPE"
 IDP = "evo.core.metrics.id_pairs_from_delta"
@@ -214,6 +214,8 @@ def check(ctx):
     ctx.section(_pipeline_inputs, ctx, "C02.9")
     from .c01 import _helpers
     ctx.section(_helpers, ctx, "C02.10")
+    from .c01 import _alignment
+    ctx.section(_alignment, ctx, "C02.11")
 
 
 def coindexing(ctx, res, member, err, dids, IDPAIRS, rule):
